@@ -227,7 +227,7 @@ impl Check for C08 {
     fn cases(&self, tier: Tier) -> u64 {
         match tier {
             Tier::Quick => 900,
-            Tier::Thorough => 12000,
+            Tier::Thorough => 24000,
         }
     }
     fn gen(&self, seed: u64, i: u64, tier: Tier) -> Value {
@@ -257,15 +257,23 @@ impl Check for C08 {
         gp.named_pct = 70;
         gp.validators = true;
         gp.serde_attrs = (i / 8) % 2 == 0;
-        let model = gen_model(&mut r.split("model"), &gp);
+        let mut model = gen_model(&mut r.split("model"), &gp);
+        // "any number of files": a tenth of the histories play in a project of 17..70 source files
+        if (i / setups.len() as u64) % 10 == 6 {
+            let mut wr = r.split("widen");
+            let target = *wr.pick(&[17usize, 18, 33, 64, 65, 70]);
+            crate::model::widen(&mut model, &mut wr, target);
+        }
         let mut cfg = super::c14::gen_cfg(&mut r.split("cfg"), &setup);
         // the dependency report is the most sensitive output (paths, line numbers, raw Rust
         // types): a third of the histories have it switched on from the start
-        if (i / setups.len() as u64) % 3 == 1 && !cfg.flag_visualize {
+        // (i % 3 and i % 2, not blocks of i: the 13 consecutive cases in which one change class is
+        // the last change must meet both generators and both settings of the visualisation)
+        if i % 3 == 1 && !cfg.flag_visualize {
             cfg.visualize = true;
         }
         // stratify the mode: every class meets both generators
-        cfg.mode = if (i / 16) % 2 == 0 { "zod".into() } else { "none".into() };
+        cfg.mode = if i % 2 == 0 { "zod".into() } else { "none".into() };
         let mut sr = r.split("steps");
         let init_state = ["current", "current", "never", "other_mode"][((i / 3) % 4) as usize].to_string();
         // all change classes in one list; the *last* change before the final run is stratified
